@@ -3,9 +3,13 @@ EXTENDS Profile, Json, IOUtils
 VARIABLES pc, cfg, in, i, out
 vars == <<pc, cfg, in, i, out>>
 Pending == [res |-> "pending", err |-> NoErr]
-Init == /\ pc = "Root" /\ i = 1 /\ out = Pending
+Init == /\ pc = "Verify" /\ i = 1 /\ out = Pending
         /\ cfg \in Cfgs /\ in \in Inputs /\ CaseOK(cfg, in)
 Finish(e) == /\ pc' = "done" /\ out' = [res |-> IF e.cls = "none" THEN "accept" ELSE "reject", err |-> e]
+\* signature stage: in the assertion-by-assertion walk an assertion that is not a child of the Response is fatal
+Verify == /\ pc = "Verify"
+          /\ IF Blocked(in) THEN Finish(Other) ELSE pc' = "Root" /\ UNCHANGED out
+          /\ UNCHANGED <<cfg, in, i>>
 \* validateResponseAttributes + response-level part of Validate (validate.go:137-176)
 RootChecks == /\ pc = "Root"
               /\ LET e == RootCheck(cfg, in.doc.root, Len(in.doc.as)) IN
@@ -17,7 +21,7 @@ AssertionChecks == /\ pc = "Assertion"
                       ELSE LET e == AsCheck(cfg, in.doc.as[i]) IN
                            IF e.cls # "none" THEN Finish(e) /\ UNCHANGED i ELSE i' = i + 1 /\ UNCHANGED <<pc, out>>
                    /\ UNCHANGED <<cfg, in>>
-Next == RootChecks \/ AssertionChecks
+Next == Verify \/ RootChecks \/ AssertionChecks
 Spec == Init /\ [][Next]_vars /\ WF_vars(Next)
 Done == pc = "done"
 AsObs(o) == [res |-> o.res, err |-> [cls |-> o.err.cls, type |-> o.err.type, names |-> <<o.err.name>>],
